@@ -50,7 +50,7 @@ def _zstd(data: bytes) -> bytes:
     return zstandard.ZstdCompressor(level=3).compress(data)
 
 
-def encode_one(data: bytes, coding: str, split_at: int | None = None):
+def encode_one(data: bytes, coding: str, split_at: int | None = None, members: int = 2):
     """-> (coded bytes, inner boundaries (offsets in the coded bytes))"""
     if coding == "identity":
         return data, []
@@ -65,6 +65,16 @@ def encode_one(data: bytes, coding: str, split_at: int | None = None):
     if coding in ("gzip_multi", "zstd_multi"):
         k = len(data) // 2 if split_at is None else max(0, min(split_at, len(data)))
         f = _gzip if coding == "gzip_multi" else _zstd
+        if members > 2:
+            # first cut at k, the rest of the data in equal parts: members/frames of every size, empty ones included
+            cuts = [k] + [k + (len(data) - k) * i // (members - 1) for i in range(1, members - 1)]
+            parts = [data[i:j] for i, j in zip([0] + cuts, cuts + [len(data)])]
+            coded = [f(x) for x in parts]
+            bounds, pos = [], 0
+            for c_ in coded[:-1]:
+                pos += len(c_)
+                bounds.append(pos)
+            return b"".join(coded), bounds
         a, b = f(data[:k]), f(data[k:])
         return a + b, [len(a)]
     raise ValueError(coding)
@@ -79,7 +89,7 @@ def build(spec: dict) -> dict:
     body = payload
     inner = []
     for c in stack:
-        body, b = encode_one(body, c, spec.get("split_at"))
+        body, b = encode_one(body, c, spec.get("split_at"), int(spec.get("members", 2)))
         inner = b  # boundaries of the outermost coding only
     full_coded_len = len(body)
     if spec.get("coded_keep") is not None:
